@@ -5,7 +5,7 @@ import ChythonModel.Proofs.C05Rules
 import ChythonModel.Proofs.C05Thiele
 import ChythonModel.Proofs.C05Round
 import ChythonModel.Proofs.C05Prepare
-import ChythonModel.Proofs.C05SearchComplete
+import ChythonModel.Proofs.C05SearchExample
 /-!
 # C05 — Kekulé and aromatic forms describe the same molecule; conversions are stable
 
@@ -597,6 +597,17 @@ def naphthaleneRings : Adj :=
    (9, [8, 10]), (10, [9, 1, 5])]
 
 example : GraphOK naphthaleneRings := graphOKb_sound (by decide +kernel)
+
+/-! non-vacuity of the soundness / no-duplicate / completeness theorems: the four-ring `square`, evaluated step by step
+    in Lean (`Proofs/C05SearchExample.lean`), yields `4,1,1 3,4,2 2,3,1 1,2,2` first — exactly what the real generator
+    yields for this input (the driver's `ks` stream contains it) -/
+example : GraphOK square := graphOKb_sound (by decide +kernel)
+example : [(4, 1, 1), (3, 4, 2), (2, 3, 1), (1, 2, 2)] ∈ (kekuleComponent square [] [] 7 4).1 := by
+  rw [component_yields_eq]; exact square_first_form
+/-- … and the soundness theorem applied to it -/
+example : KekuleFormOf square [] [(4, 1, 1), (3, 4, 2), (2, 3, 1), (1, 2, 2)] :=
+  component_sound (graphOKb_sound (by decide +kernel)) [] 7 4 _
+    (by rw [component_yields_eq]; exact square_first_form)
 /-- not a prepared component: atom 1 has a single ring neighbour -/
 example : graphOKb [(1, [2]), (2, [1, 3, 4]), (3, [2, 4]), (4, [2, 3])] = false := by decide +kernel
 example : (feedAll [7] ⟨1, []⟩ [[(1, 7, 1)], [(2, 7, 1)]]).2 = [[(1, 7, 1)], [(2, 7, 1)]] := by decide +kernel
